@@ -17,7 +17,7 @@ extern "C" void h_c22_plan(unsigned long ncontacts, unsigned long nshards, unsig
     const std::uint16_t sample = nondet_u16("candidate_sample"); verif_assume(sample <= 8); cfg.swarm_candidate_sample = static_cast<std::uint16_t>(verif_concretize(sample, 16));
     verif_env::g_steady_ns = 1000 * kNs;
     KademliaTable table(self_id());
-    for (unsigned i = 0; i < ncontacts; ++i) { PeerContact c{}; c.id = peer_n(i); c.address = std::string(1, static_cast<char>('a' + i)); c.expires_at = std::chrono::steady_clock::time_point(std::chrono::nanoseconds((1100 + 10 * i) * kNs)); table.register_peer(c); }
+    for (unsigned i = 0; i < ncontacts; ++i) { PeerContact c{}; c.id = peer_n(i); c.address = std::string(1, static_cast<char>('a' + i)); const bool last_second = i < 2 ? nondet_bool("lease_in_its_last_second") : false;   /* the first two contacts (nearest ids) may be in their last half second */ c.expires_at = std::chrono::steady_clock::time_point(std::chrono::nanoseconds(verif_concretize(last_second, 2) ? 1000 * kNs + kNs / 2 : (1100 + 10 * i) * kNs)); table.register_peer(c); }
     if (extras & 1) { PeerContact c{}; c.id = peer_n(6); c.address = "x"; c.expires_at = std::chrono::steady_clock::time_point(std::chrono::nanoseconds(900 * kNs)); table.register_peer(c); }   // already expired
     if (extras & 2) { ChunkId any{}; PeerContact c{}; c.id = self_id(); c.address = "self"; table.add_contact(any, c, std::chrono::seconds(500)); }                                                  // the node announces itself
     protocol::Manifest m{}; m.threshold = nondet_u8("threshold");
